@@ -5,11 +5,13 @@ go 1.26
 require (
 	github.com/jcmturner/gofork v1.7.6
 	github.com/jcmturner/gokrb5/v8 v8.0.0
+	github.com/jcmturner/rpc/v2 v2.0.3
 )
 
 require (
 	github.com/jcmturner/aescts/v2 v2.0.0 // indirect
 	golang.org/x/crypto v0.6.0 // indirect
+	golang.org/x/net v0.7.0 // indirect
 )
 
 replace github.com/jcmturner/gokrb5/v8 => /repo/v8
